@@ -299,9 +299,12 @@ def run_lens(part, unit):
                                tol=TOL)
         finu = np.isfinite(Iu)
         if np.any(finu):
-            if np.max(Iu[finu]) > 1 + TOL:
-                part.violation(PID, 'intensity-not-created', 'Optic.trace', c, dict(det0, Hy=Hy),
-                               observed=float(np.max(Iu[finu])), expected='<= 1', tol=TOL)
+            # no upper bound is asserted for coated lenses: the library's intensity is the product of |t|^2 without the
+            # (n2 cos t)/(n1 cos i) beam factor (it exceeds 1 inside glass and for strongly non-parallel surface pairs), and the
+            # property states no bound; the uncoated case is the exact norm-preservation clause above
+            if not coated and np.max(np.abs(Iu[finu] - 1)) > TOL:
+                part.violation(PID, 'uncoated-intensity-preserved', 'Optic.trace', c, dict(det0, Hy=Hy),
+                               observed=float(Iu[finu][np.argmax(np.abs(Iu[finu] - 1))]), expected=1.0, tol=TOL)
             part.outcome(unit['mode'], Hy, Iu[finu][:4])
     part.sample(dict(word=unit['word'], mode=unit['mode']))
 
